@@ -154,16 +154,16 @@ fn judge_pairs(case: &AstCase, cover: &mut Cover, out: &mut Vec<Violation>) {
 }
 
 /// Programmatic graph: the three fingerprints agree with the reference for the unfolded graph.
-fn judge_graph(g: &[GNode], cover: &mut Cover, out: &mut Vec<Violation>) {
+fn judge_graph(g: &[GNode], sp: ggen::NameSpell, cover: &mut Cover, out: &mut Vec<Violation>) {
 	cover.evaluations += 1;
 	cover.impl_runs += 1;
 	let expected = ggen::unfold(g);
 	let want_text = pcf(&expected);
 	let want = fingerprint_le(want_text.as_bytes());
 	let mut viol = |class: &str, what: String| {
-		out.push(Violation { class: class.to_owned(), what: format!("graph {} (built with from_nodes): {what}", ggen::describe(g)), replay: json!({"check": "C08", "kind": "graph", "graph": ggen::to_json(g)}) });
+		out.push(Violation { class: class.to_owned(), what: format!("graph {} ({}): {what}", ggen::describe(g), sp.origin()), replay: json!({"check": "C08", "kind": "graph", "graph": ggen::to_json(g), "names": sp.label()}) });
 	};
-	match fingerprints(SchemaMut::from_nodes(ggen::to_crate(g))) {
+	match fingerprints(SchemaMut::from_nodes(ggen::to_crate_spelled(g, sp))) {
 		Out::Ok((a, b, hook)) => {
 			if a != b {
 				viol("fingerprint-paths-differ", format!("SchemaMut::canonical_form_rabin_fingerprint {a:02x?} but Schema::rabin_fingerprint {b:02x?}"));
@@ -175,7 +175,7 @@ fn judge_graph(g: &[GNode], cover: &mut Cover, out: &mut Vec<Violation>) {
 				cover.count("graphs_fingerprint_equal", 1);
 				let f = sgen::feats(&expected);
 				if f.refs >= 1 {
-					cover.nontrivial.insert(hash64(&g));
+					cover.nontrivial.insert(hash64(&(g, sp)));
 				}
 			}
 		}
@@ -300,7 +300,7 @@ pub fn run(rep: &mut Report) {
 	let plan = sgen::Plan { escapes: 0, ..sgen::plan(thorough) };
 	let levels: Vec<ggen::GBounds> = c09::levels(thorough).into_iter().filter(|b| b.n <= 3 || (thorough && b.label == "n4-ns2-canonical")).collect();
 	rep.rule = format!(
-		"SAE. Documents: C07's valid ASTs x spellings (tier {}; grammar families: {}; spellings: {}); per document: SchemaMut::canonical_form_rabin_fingerprint = Schema::rabin_fingerprint = LE64(crc64_avro(own canonical text)) [hook H1] and canonical text = vmodel::pcf(AST), fingerprint = LE64(crc64_avro(pcf(AST))) with a bit-serial CRC; the set of fingerprints over all spellings of one AST has one element; forward-reference variants: checksum-of-own-text only. Global: two ASTs with different canonical forms never share a fingerprint (unless the reference CRC collides too). Difference pairs for every valid AST: each single edit that changes the canonical form (wrap any node in an array, int -> long, swap union branches, rename a type, move a type to another namespace, reorder / rename fields, reorder / rename symbols, size + 1) must change the fingerprint, each edit that does not (logical type added to an int or to a named type) must not. Programmatic graphs (C09's levels {}): the two fingerprints agree with the reference for the unfolded graph. Checksum step via hook H2: initial state, the 73 basis vectors (0, 64 unit states, 8 unit bytes) and all 256 table entries against the bit-serial definition, table GF(2)-linear in the byte, joint additivity on all basis pairs — by linearity of `(s >> 8) ^ T[(s ^ b) & 0xff]` in (s, b) this determines all 2^64 x 256 pairs — plus, not relying on that argument, every (state, byte) with state < 2^16 or state = unit high bit ^ low byte, exhaustively. HIST: every history of <= {} operations from {{b = a.clone(); a.clone_from(&b); b.clone_from(&a); and for a and b: canonical_form_rabin_fingerprint(), serde_json::to_string(), freeze() (consumes the object), 5 edits through nodes_mut() (no change, rename first field, add symbol, fixed size + 1, rename first named type)}} on 5 base schemas (parsed with extra attributes / built with from_nodes; record+enum+fixed+recursion, array on a cycle through a record, enum without symbols, fixed), rebuilt from scratch per history (explicit-state BFS, key = history + all results); invariant after every operation: the fingerprint reported by the object / by the frozen Schema = fingerprint of the reference canonical form of the CURRENT nodes = what a fresh SchemaMut::from_nodes(current nodes) reports. Hook-free: every ASCII character and 6 multi-byte characters driven through a type name. Non-trivial: documents with >= 1 reference or namespace transition (distinct by text), difference pairs (distinct by both texts), graphs with a shared / cyclic named node.",
+		"SAE. Documents: C07's valid ASTs x spellings (tier {}; grammar families: {}; spellings: {}); per document: SchemaMut::canonical_form_rabin_fingerprint = Schema::rabin_fingerprint = LE64(crc64_avro(own canonical text)) [hook H1] and canonical text = vmodel::pcf(AST), fingerprint = LE64(crc64_avro(pcf(AST))) with a bit-serial CRC; the set of fingerprints over all spellings of one AST has one element; forward-reference variants: checksum-of-own-text only. Global: two ASTs with different canonical forms never share a fingerprint (unless the reference CRC collides too). Difference pairs for every valid AST: each single edit that changes the canonical form (wrap any node in an array, int -> long, swap union branches, rename a type, move a type to another namespace, reorder / rename fields, reorder / rename symbols, size + 1) must change the fingerprint, each edit that does not (logical type added to an int or to a named type) must not. Programmatic graphs (C09's levels {}; null-namespace names constructed both as Name::from_fully_qualified_name(\"X\") and as (\".X\") up to 3 nodes, mixed by node parity above): the two fingerprints agree with the reference for the unfolded graph. Checksum step via hook H2: initial state, the 73 basis vectors (0, 64 unit states, 8 unit bytes) and all 256 table entries against the bit-serial definition, table GF(2)-linear in the byte, joint additivity on all basis pairs — by linearity of `(s >> 8) ^ T[(s ^ b) & 0xff]` in (s, b) this determines all 2^64 x 256 pairs — plus, not relying on that argument, every (state, byte) with state < 2^16 or state = unit high bit ^ low byte, exhaustively. HIST: every history of <= {} operations from {{b = a.clone(); a.clone_from(&b); b.clone_from(&a); and for a and b: canonical_form_rabin_fingerprint(), serde_json::to_string(), freeze() (consumes the object), 5 edits through nodes_mut() (no change, rename first field, add symbol, fixed size + 1, rename first named type alternately to q.Q and to the null-namespace Q constructed as Name::from_fully_qualified_name(\".Q\"))}} on 5 base schemas (parsed with extra attributes / built with from_nodes; record+enum+fixed+recursion, array on a cycle through a record, enum without symbols, fixed), rebuilt from scratch per history (explicit-state BFS, key = history + all results); invariant after every operation: the fingerprint reported by the object / by the frozen Schema = fingerprint of the reference canonical form of the CURRENT nodes = what a fresh SchemaMut::from_nodes(current nodes) reports. Hook-free: every ASCII character and 6 multi-byte characters driven through a type name. Non-trivial: documents with >= 1 reference or namespace transition (distinct by text), difference pairs (distinct by both texts), graphs with a shared / cyclic named node.",
 		rep.tier,
 		sgen::describe_grammars(thorough),
 		sgen::describe_plan(&plan),
@@ -380,7 +380,15 @@ pub fn run(rep: &mut Report) {
 				let st = explore(None, u64::MAX, |ch| {
 					if let Some(g) = ggen::gen_graph(ch, b, &opts, first) {
 						if !ggen::has_unnamed_cycle(&g) && (out.len() as u64) < 50 + cover.counters.get("attributed_violations").copied().unwrap_or(0) {
-							judge_graph(&g, &mut cover, &mut out);
+							for sp in ggen::spellings_for(b) {
+								if *sp == ggen::NameSpell::Dotted && !ggen::has_null_namespace_name(&g) {
+									continue;
+								}
+								if *sp != ggen::NameSpell::Plain && ggen::has_null_namespace_name(&g) {
+									cover.count("graphs_with_dot_constructed_null_namespace_names", 1);
+								}
+								judge_graph(&g, *sp, &mut cover, &mut out);
+							}
 						}
 					}
 					true
@@ -422,6 +430,7 @@ pub fn run(rep: &mut Report) {
 		"distinct_canonical_forms_compared_pairwise",
 		"name_driven_fingerprints",
 		"histories_observe_edit_observe",
+		"graphs_with_dot_constructed_null_namespace_names",
 	] {
 		if c(k) == 0 {
 			missing.push(k);
@@ -473,8 +482,10 @@ pub fn replay(v: &serde_json::Value) -> i32 {
 			let g = ggen::from_json(&r["graph"]).unwrap_or_else(|| machinery("replay: bad graph".into()));
 			println!("graph: {}", ggen::describe(&g));
 			println!("reference canonical form: {}", pcf(&ggen::unfold(&g)));
-			println!("crate: {:02x?}", fingerprints(SchemaMut::from_nodes(ggen::to_crate(&g))));
-			judge_graph(&g, &mut cover, &mut out);
+			let sp = ggen::NameSpell::from_label(r["names"].as_str().unwrap_or("plain"));
+			println!("names: {}", sp.origin());
+			println!("crate: {:02x?}", fingerprints(SchemaMut::from_nodes(ggen::to_crate_spelled(&g, sp))));
+			judge_graph(&g, sp, &mut cover, &mut out);
 		}
 		"pair" | "collision" => {
 			let a = r["a"].as_str().unwrap_or("");
